@@ -855,3 +855,33 @@ def bool_edge(body, bi, want):
         if (val == "0") == (not want):
             return bb
     return t["otherwise"]
+
+
+def option_guards(body, same):
+    """Tests of an Option/Result value: [(switch block, target when Some/Ok, target when None/Err)].
+    `same(expr)` says whether a (ref-stripped) expression is the value of interest.  Recognised:
+    a switch on its discriminant, and a switch on is_none()/is_some()/is_ok()/is_err() of it."""
+    out = []
+    for sb in body.reachable():
+        tt = body.blocks[sb]["term"]
+        if tt["k"] != "SwitchInt":
+            continue
+        e = body.trace(tt["discr"])
+        if e[0] == "discr" and same(strip_refs(e[1])):
+            some = switch_edges_for_variant(body, sb, "Some") or switch_edges_for_variant(body, sb, "Ok")
+            none = switch_edges_for_variant(body, sb, "None") or switch_edges_for_variant(body, sb, "Err")
+            if some and none:
+                out.append((sb, some[0], none[0]))
+            continue
+        x = strip_refs(e)
+        neg = False
+        while x[0] == "unop" and x[1] == "Not":
+            neg = not neg
+            x = strip_refs(x[2])
+        if x[0] == "call" and x[1] and x[1]["path"] in ("std::option::Option::<T>::is_none", "std::option::Option::<T>::is_some", "std::result::Result::<T, E>::is_ok", "std::result::Result::<T, E>::is_err"):
+            if same(strip_refs(x[2][0])):
+                positive = x[1]["path"].endswith(("is_some", "is_ok"))
+                if neg:
+                    positive = not positive
+                out.append((sb, bool_edge(body, sb, positive), bool_edge(body, sb, not positive)))
+    return out
